@@ -355,49 +355,24 @@ func c01SharedMaps(c *Ctx, svcs []Service, reach map[*ssa.Function]bool) {
 			continue
 		}
 		for i, a := range accs {
-			locked, sharedOnly := false, false
-			for _, call := range Calls(a.fn) {
-				f := call.Common().StaticCallee()
-				if f == nil || !(f.Name() == "Lock" || f.Name() == "RLock") || !(RecvTypeName(f) == "Mutex" || RecvTypeName(f) == "RWMutex") || PkgOf(f) != "sync" {
-					continue
-				}
-				if _, isDefer := call.(*ssa.Defer); isDefer {
-					continue
-				}
-				if !call.Block().Dominates(a.in.Block()) || (call.Block() == a.in.Block() && instrIdx(call) > instrIdx(a.in)) {
-					continue
-				}
-				// the mutex belongs to the same object (or is a package-level mutex)
-				held := false
-				mu := call.Common().Args[0]
+			baseR := Render(a.base)
+			locked, sharedOnly := c01HeldAt(a.fn, a.in, a.write, func(mu ssa.Value) bool {
 				if fa, ok := mu.(*ssa.FieldAddr); ok {
-					if Render(fa.X) == Render(a.base) {
-						held = true
+					return Render(fa.X) == baseR
+				}
+				_, ok := mu.(*ssa.Global)
+				return ok
+			})
+			if !locked && !sharedOnly {
+				// the function runs under its callers' lock (a "caller has to hold the lock" helper, or a closure run by a lock wrapper)
+				bt := NamedOf(a.base.Type())
+				locked = c01CallersHold(p, a.fn, a.write, func(mu ssa.Value) bool {
+					if fa, ok := mu.(*ssa.FieldAddr); ok {
+						return bt != nil && NamedOf(fa.X.Type()) == bt
 					}
-				} else if _, ok := mu.(*ssa.Global); ok {
-					held = true
-				}
-				if !held {
-					continue
-				}
-				// not unlocked again before the access (an Unlock call that dominates the access and is dominated by the Lock)
-				for _, c2 := range Calls(a.fn) {
-					f2 := c2.Common().StaticCallee()
-					if _, isDefer := c2.(*ssa.Defer); isDefer || f2 == nil || !(f2.Name() == "Unlock" || f2.Name() == "RUnlock") {
-						continue
-					}
-					if call.Block().Dominates(c2.Block()) && c2.Block().Dominates(a.in.Block()) && !(c2.Block() == a.in.Block() && instrIdx(c2) > instrIdx(a.in)) && !(c2.Block() == call.Block() && instrIdx(c2) < instrIdx(call)) {
-						held = false
-					}
-				}
-				if !held {
-					continue
-				}
-				if f.Name() == "RLock" && a.write {
-					sharedOnly = true // a read lock does not exclude the other holders of the read lock
-					continue
-				}
-				locked = true
+					_, ok := mu.(*ssa.Global)
+					return ok
+				}, 0, map[*ssa.Function]bool{})
 			}
 			if !locked && sharedOnly {
 				c.Violate("shared-map-locked", fmt.Sprintf("%s write[%d] in %s", k, i, shortFn(a.fn)), p.InstrPos(a.in), "a map stored in the shared service object is written (insert/delete) while only the read lock (RLock) is held: read locks do not exclude each other, so two connections at once cause `fatal error: concurrent map writes`, which no recover can catch")
@@ -856,4 +831,126 @@ func goroutinePanicSites(p *Program, g *callgraph.Graph, fn *ssa.Function) (out 
 		}
 	}
 	return out, len(fns)
+}
+
+// c01HeldAt: a Lock (or, for reads, RLock) of a mutex accepted by okMu dominates `at` in fn and is not released again
+// before it. sharedOnly: only a read lock is held at a write.
+func c01HeldAt(fn *ssa.Function, at ssa.Instruction, write bool, okMu func(ssa.Value) bool) (locked, sharedOnly bool) {
+	for _, call := range Calls(fn) {
+		f := call.Common().StaticCallee()
+		if f == nil || !(f.Name() == "Lock" || f.Name() == "RLock") || !(RecvTypeName(f) == "Mutex" || RecvTypeName(f) == "RWMutex") || PkgOf(f) != "sync" {
+			continue
+		}
+		if _, isDefer := call.(*ssa.Defer); isDefer {
+			continue
+		}
+		if !call.Block().Dominates(at.Block()) || (call.Block() == at.Block() && instrIdx(call) > instrIdx(at)) {
+			continue
+		}
+		if !okMu(call.Common().Args[0]) {
+			continue
+		}
+		held := true
+		// not unlocked again before the access (an Unlock call that dominates the access and is dominated by the Lock)
+		for _, c2 := range Calls(fn) {
+			f2 := c2.Common().StaticCallee()
+			if _, isDefer := c2.(*ssa.Defer); isDefer || f2 == nil || !(f2.Name() == "Unlock" || f2.Name() == "RUnlock") {
+				continue
+			}
+			if call.Block().Dominates(c2.Block()) && c2.Block().Dominates(at.Block()) && !(c2.Block() == at.Block() && instrIdx(c2) > instrIdx(at)) && !(c2.Block() == call.Block() && instrIdx(c2) < instrIdx(call)) {
+				held = false
+			}
+		}
+		if !held {
+			continue
+		}
+		if f.Name() == "RLock" && write {
+			sharedOnly = true // a read lock does not exclude the other holders of the read lock
+			continue
+		}
+		locked = true
+	}
+	return
+}
+
+// c01CallersHold: every way fn gets to run is under such a lock: each static call site holds it (or its own callers
+// do), and a closure handed to a function runs where that function calls its parameter.
+func c01CallersHold(p *Program, fn *ssa.Function, write bool, okMu func(ssa.Value) bool, depth int, seen map[*ssa.Function]bool) bool {
+	if depth > 3 || seen[fn] {
+		return false
+	}
+	seen[fn] = true
+	nsites := 0
+	siteOK := func(g *ssa.Function, at ssa.Instruction) bool {
+		if l, _ := c01HeldAt(g, at, write, okMu); l {
+			return true
+		}
+		return c01CallersHold(p, g, write, okMu, depth+1, seen)
+	}
+	for _, g := range p.Funcs() {
+		for _, b := range g.Blocks {
+			for _, in := range b.Instrs {
+				switch x := in.(type) {
+				case ssa.CallInstruction:
+					cc := x.Common()
+					if cc.StaticCallee() == fn {
+						if _, isMC := cc.Value.(*ssa.MakeClosure); isMC {
+							// an immediately invoked closure: counted at its MakeClosure below
+						}
+						nsites++
+						if _, isGo := x.(*ssa.Go); isGo {
+							return false
+						}
+						if !siteOK(g, x) {
+							return false
+						}
+					}
+				}
+				mc, ok := in.(*ssa.MakeClosure)
+				if !ok || mc.Fn != ssa.Value(fn) {
+					continue
+				}
+				// where does the closure value go?
+				for _, ref := range *mc.Referrers() {
+					ci, isCall := ref.(ssa.CallInstruction)
+					if !isCall {
+						return false // stored or returned: runs somewhere we do not see
+					}
+					cc := ci.Common()
+					if cc.Value == ssa.Value(mc) {
+						continue // invoked on the spot: already counted as a static call site
+					}
+					w := cc.StaticCallee()
+					if w == nil || !InRepo(w) || w.Blocks == nil {
+						return false
+					}
+					off := 0
+					if cc.IsInvoke() {
+						return false
+					}
+					for ai, a := range cc.Args {
+						if a != ssa.Value(mc) || ai+off >= len(w.Params) {
+							continue
+						}
+						prm := w.Params[ai+off]
+						// every use of the parameter in w is a call under the lock
+						for _, r2 := range *prm.Referrers() {
+							c2, isC := r2.(ssa.CallInstruction)
+							if !isC || c2.Common().Value != ssa.Value(prm) {
+								return false
+							}
+							if _, isGo := c2.(*ssa.Go); isGo {
+								return false
+							}
+							nsites++
+							if !siteOK(w, c2) {
+								return false
+							}
+						}
+					}
+				}
+			}
+		}
+	}
+	return nsites > 0
 }
